@@ -39,6 +39,10 @@ CLAIMED['C06'] = dict(
    text='Machine-checked theorems on the wrappers regenerated from _contracts.py: when every pre/post/ensure accepts, the sync and async wrappers call the original with exactly the caller arguments and return exactly its value; with contracts disabled the wrapper is the original call (same outcome object, same final state); and a machine-checked REFUTATION of the full generator protocol on the current tree (sent values are not forwarded, the return value is lost) -- listed as known findings. Identity of argument/result objects, self/cls binding, name/doc/signature/kind/__wrapped__ and generator driver scripts are decided by the side-by-side correspondence (decorated vs bare, model vs real deal) and the metadata monitor.',
    design_ref='DESIGN.md 4.6', note=GENERIC_NOTE + ' Partial: functools.update_wrapper metadata and descriptor binding are checked on the implementation only.',
    technique='Coq proof over wrappers regenerated from source + side-by-side differential correspondence')
+CLAIMED['C12'] = dict(
+   text='Machine-checked theorems on Dispatch.__call__ regenerated from _dispatch.py, for every registry of implementations, function table, arguments and fuel: the outcome is that of the first implementation, in registration order, that does not fail with a PreContractError of its own function; later implementations are not called; if all mismatch, NoMatchError lists one failure per implementation in order; any other exception (custom-typed precondition errors, precondition errors of deeper calls) propagates; the switch is forced on during the search and restored. Tied to the code by regeneration, differential execution over random registries and an independent monitor.',
+   design_ref='DESIGN.md 4.12', note=GENERIC_NOTE,
+   technique='Coq proof over code regenerated from source + differential correspondence + monitor')
 UNCLAIMED_REASON = 'not claimed yet: the Coq model and check for this property are still under construction in this round (no technique switch intended)'
 checks, na = [], []
 for p in props:
